@@ -116,9 +116,11 @@ class Taint:
         """Boolean index derived from the mask: `w != 0`, `w > 0`, conjunction containing one, or a name holding one."""
         if isinstance(e, ast.Compare) and len(e.ops) == 1:
             l, r = e.left, e.comparators[0]
-            for a, b in ((l, r), (r, l)):
-                if self.ev(a).mask and isinstance(b, ast.Constant) and b.value == 0 and isinstance(e.ops[0], (ast.NotEq, ast.Gt, ast.Lt)):
-                    return True
+            # mask != 0, mask > 0, 0 != mask, 0 < mask  (a 0/1 mask is never < 0: `mask < 0` selects nothing)
+            if self.ev(l).mask and isinstance(r, ast.Constant) and r.value == 0 and isinstance(e.ops[0], (ast.NotEq, ast.Gt)):
+                return True
+            if self.ev(r).mask and isinstance(l, ast.Constant) and l.value == 0 and isinstance(e.ops[0], (ast.NotEq, ast.Lt)):
+                return True
         if isinstance(e, ast.BinOp) and isinstance(e.op, ast.BitAnd):
             return self.is_mask_selector(e.left) or self.is_mask_selector(e.right)
         if isinstance(e, ast.BoolOp) and isinstance(e.op, ast.And):
